@@ -1,0 +1,198 @@
+//go:build verif
+
+package cty
+
+// Contracts on the refinement builder (C05: every refinement narrows exactly by the stated
+// constraint, contradictions panic, DynamicVal ignores refinement; C20: only the builder's own
+// work-in-progress object is written). The builder object itself is never modified after Refine
+// created it; its work-in-progress refinement object is. Comment-only file.
+//
+// Restriction: when the builder refines a known collection its length is known (not a set with unknown
+// members), so that the contradiction test against the known value is a comparison of known numbers.
+//
+// Interface contracts of unknownValRefinement.null (assumed at dynamic calls).
+//@ func (cty.unknownValRefinement).null
+//@   trusted
+//@   ensures (= result (ite ((_ is box<*cty.refinementNumber>) recv) (rn_null ($at<cty.refinementNumber> (wip_num recv))) (ite ((_ is box<*cty.refinementString>) recv) (rs_null ($at<cty.refinementString> (wip_str recv))) (ite ((_ is box<*cty.refinementCollection>) recv) (rc_null ($at<cty.refinementCollection> (wip_coll recv))) (cty.refinementNullable.isNull ($at<cty.refinementNullable> (wip_nul recv)))))))
+//
+//@ func (*cty.RefinementBuilder).refineable
+//@   tags C05
+//@   requires (not (= b 0))
+//@   panics[C05] (and (not (= (b_orig b) $G<cty.DynamicVal>)) (= (b_wip b) nil.Any))
+//@   ensures[C05] dyn: (= result (not (= (b_orig b) $G<cty.DynamicVal>)))
+//
+//@ func (*cty.refinementCollection).assertConsistentLengthBounds
+//@   tags C05
+//@   requires (not (= r 0))
+//@   panics[C05] (< (cty.refinementCollection.maxLen ($at<cty.refinementCollection> r)) (cty.refinementCollection.minLen ($at<cty.refinementCollection> r)))
+//
+//@ func (*cty.RefinementBuilder).CollectionLengthLowerBound
+//@   tags C05 C20
+//@   requires (not (= b 0))
+//@   requires (and (wf_deep (b_orig b)) (not (is_marked (b_orig b))))
+//@   let o (b_orig b)
+//@   let w (b_wip b)
+//@   let p (wip_coll w)
+//@   let R0 (old ($at<cty.refinementCollection> p))
+//@   let R ($at<cty.refinementCollection> p)
+//@   let dyn (= o $G<cty.DynamicVal>)
+//@   let L (len_val o)
+//@   requires (=> ((_ is box<*cty.refinementCollection>) w) (and (not (= p 0)) (rc_ok ($at<cty.refinementCollection> p))))
+//@   requires (=> (is_known o) (is_known L))
+//@   panics[C05] (and (not dyn) (or (= w nil.Any) (not ((_ is box<*cty.refinementCollection>) w)) (and (is_known o) (is_known L) (x_lt (num_i L) (num_r L) 0 (to_real min))) (< (cty.refinementCollection.maxLen R0) min)))
+//@   writes cty.refinementCollection p
+//@   ensures (= result b)
+//@   ensures[C05] dynamic: (=> dyn (= R R0))
+//@   ensures[C05] narrowed: (=> (not dyn) (= R (mk.cty.refinementCollection (cty.refinementCollection.refinementNullable R0) (imax (cty.refinementCollection.minLen R0) min) (cty.refinementCollection.maxLen R0))))
+//@   ensures[C05] inv: (=> (not dyn) (rc_ok R))
+//
+//@ func (*cty.RefinementBuilder).CollectionLengthUpperBound
+//@   tags C05 C20
+//@   requires (not (= b 0))
+//@   requires (and (wf_deep (b_orig b)) (not (is_marked (b_orig b))))
+//@   let o (b_orig b)
+//@   let w (b_wip b)
+//@   let p (wip_coll w)
+//@   let R0 (old ($at<cty.refinementCollection> p))
+//@   let R ($at<cty.refinementCollection> p)
+//@   let dyn (= o $G<cty.DynamicVal>)
+//@   let L (len_val o)
+//@   requires (=> ((_ is box<*cty.refinementCollection>) w) (and (not (= p 0)) (rc_ok ($at<cty.refinementCollection> p))))
+//@   requires (=> (is_known o) (is_known L))
+//@   panics[C05] (and (not dyn) (or (= w nil.Any) (not ((_ is box<*cty.refinementCollection>) w)) (and (is_known o) (is_known L) (x_lt 0 (to_real max) (num_i L) (num_r L))) (< max (cty.refinementCollection.minLen R0))))
+//@   writes cty.refinementCollection p
+//@   ensures (= result b)
+//@   ensures[C05] dynamic: (=> dyn (= R R0))
+//@   ensures[C05] narrowed: (=> (not dyn) (= R (mk.cty.refinementCollection (cty.refinementCollection.refinementNullable R0) (cty.refinementCollection.minLen R0) (ite (<= max (cty.refinementCollection.maxLen R0)) max (cty.refinementCollection.maxLen R0)))))
+//@   ensures[C05] inv: (=> (not dyn) (rc_ok R))
+//
+//@ func (*cty.RefinementBuilder).CollectionLength
+//@   tags C05 C20
+//@   requires (not (= b 0))
+//@   requires (and (wf_deep (b_orig b)) (not (is_marked (b_orig b))))
+//@   let o (b_orig b)
+//@   let w (b_wip b)
+//@   let p (wip_coll w)
+//@   let R0 (old ($at<cty.refinementCollection> p))
+//@   let R ($at<cty.refinementCollection> p)
+//@   let dyn (= o $G<cty.DynamicVal>)
+//@   let L (len_val o)
+//@   requires (=> ((_ is box<*cty.refinementCollection>) w) (and (not (= p 0)) (rc_ok ($at<cty.refinementCollection> p))))
+//@   requires (=> (is_known o) (is_known L))
+//@   panics[C05] (and (not dyn) (or (= w nil.Any) (not ((_ is box<*cty.refinementCollection>) w)) (and (is_known o) (is_known L) (not (and (= (num_i L) 0) (= (num_r L) (to_real length))))) (< (cty.refinementCollection.maxLen R0) length) (< length (cty.refinementCollection.minLen R0))))
+//@   writes cty.refinementCollection p
+//@   ensures (= result b)
+//@   ensures[C05] dynamic: (=> dyn (= R R0))
+//@   ensures[C05] exact: (=> (not dyn) (= R (mk.cty.refinementCollection (cty.refinementCollection.refinementNullable R0) length length)))
+//
+//@ func (*cty.RefinementBuilder).NotNull
+//@   tags C05 C20
+//@   requires (not (= b 0))
+//@   requires (wf_marks (b_orig b))
+//@   let o (b_orig b)
+//@   let w (b_wip b)
+//@   let dyn (= o $G<cty.DynamicVal>)
+//@   let n0 (old (ite ((_ is box<*cty.refinementNumber>) w) (rn_null ($at<cty.refinementNumber> (wip_num w))) (ite ((_ is box<*cty.refinementString>) w) (rs_null ($at<cty.refinementString> (wip_str w))) (ite ((_ is box<*cty.refinementCollection>) w) (rc_null ($at<cty.refinementCollection> (wip_coll w))) (cty.refinementNullable.isNull ($at<cty.refinementNullable> (wip_nul w)))))))
+//@   requires (=> (not (= w nil.Any)) (or (and ((_ is box<*cty.refinementNumber>) w) (not (= (wip_num w) 0))) (and ((_ is box<*cty.refinementString>) w) (not (= (wip_str w) 0))) (and ((_ is box<*cty.refinementCollection>) w) (not (= (wip_coll w) 0))) (and ((_ is box<*cty.refinementNullable>) w) (not (= (wip_nul w) 0)))))
+//@   panics[C05] (and (not dyn) (or (= w nil.Any) (and (is_known o) (is_null o)) (= n0 84)))
+//@   writes cty.refinementNumber (wip_num w)
+//@   writes cty.refinementString (wip_str w)
+//@   writes cty.refinementCollection (wip_coll w)
+//@   writes cty.refinementNullable (wip_nul w)
+//@   ensures (= result b)
+//@   ensures[C05] num: (=> ((_ is box<*cty.refinementNumber>) w) (let ((r (old ($at<cty.refinementNumber> (wip_num w))))) (= ($at<cty.refinementNumber> (wip_num w)) (ite dyn r (mk.cty.refinementNumber (mk.cty.refinementNullable 70) (cty.refinementNumber.min r) (cty.refinementNumber.max r) (cty.refinementNumber.minInc r) (cty.refinementNumber.maxInc r))))))
+//@   ensures[C05] str: (=> ((_ is box<*cty.refinementString>) w) (let ((r (old ($at<cty.refinementString> (wip_str w))))) (= ($at<cty.refinementString> (wip_str w)) (ite dyn r (mk.cty.refinementString (mk.cty.refinementNullable 70) (cty.refinementString.prefix r))))))
+//@   ensures[C05] coll: (=> ((_ is box<*cty.refinementCollection>) w) (let ((r (old ($at<cty.refinementCollection> (wip_coll w))))) (= ($at<cty.refinementCollection> (wip_coll w)) (ite dyn r (mk.cty.refinementCollection (mk.cty.refinementNullable 70) (cty.refinementCollection.minLen r) (cty.refinementCollection.maxLen r))))))
+//@   ensures[C05] nul: (=> ((_ is box<*cty.refinementNullable>) w) (= ($at<cty.refinementNullable> (wip_nul w)) (ite dyn (old ($at<cty.refinementNullable> (wip_nul w))) (mk.cty.refinementNullable 70))))
+//
+//@ func (*cty.RefinementBuilder).Null
+//@   tags C05 C20
+//@   requires (not (= b 0))
+//@   requires (wf_marks (b_orig b))
+//@   let o (b_orig b)
+//@   let w (b_wip b)
+//@   let dyn (= o $G<cty.DynamicVal>)
+//@   let n0 (old (ite ((_ is box<*cty.refinementNumber>) w) (rn_null ($at<cty.refinementNumber> (wip_num w))) (ite ((_ is box<*cty.refinementString>) w) (rs_null ($at<cty.refinementString> (wip_str w))) (ite ((_ is box<*cty.refinementCollection>) w) (rc_null ($at<cty.refinementCollection> (wip_coll w))) (cty.refinementNullable.isNull ($at<cty.refinementNullable> (wip_nul w)))))))
+//@   requires (=> (not (= w nil.Any)) (or (and ((_ is box<*cty.refinementNumber>) w) (not (= (wip_num w) 0))) (and ((_ is box<*cty.refinementString>) w) (not (= (wip_str w) 0))) (and ((_ is box<*cty.refinementCollection>) w) (not (= (wip_coll w) 0))) (and ((_ is box<*cty.refinementNullable>) w) (not (= (wip_nul w) 0)))))
+//@   panics[C05] (and (not dyn) (or (= w nil.Any) (and (is_known o) (not (is_null o))) (= n0 70)))
+//@   writes cty.refinementNumber (wip_num w)
+//@   writes cty.refinementString (wip_str w)
+//@   writes cty.refinementCollection (wip_coll w)
+//@   writes cty.refinementNullable (wip_nul w)
+//@   ensures (= result b)
+//@   ensures[C05] num: (=> ((_ is box<*cty.refinementNumber>) w) (let ((r (old ($at<cty.refinementNumber> (wip_num w))))) (= ($at<cty.refinementNumber> (wip_num w)) (ite dyn r (mk.cty.refinementNumber (mk.cty.refinementNullable 84) (cty.refinementNumber.min r) (cty.refinementNumber.max r) (cty.refinementNumber.minInc r) (cty.refinementNumber.maxInc r))))))
+//@   ensures[C05] str: (=> ((_ is box<*cty.refinementString>) w) (let ((r (old ($at<cty.refinementString> (wip_str w))))) (= ($at<cty.refinementString> (wip_str w)) (ite dyn r (mk.cty.refinementString (mk.cty.refinementNullable 84) (cty.refinementString.prefix r))))))
+//@   ensures[C05] coll: (=> ((_ is box<*cty.refinementCollection>) w) (let ((r (old ($at<cty.refinementCollection> (wip_coll w))))) (= ($at<cty.refinementCollection> (wip_coll w)) (ite dyn r (mk.cty.refinementCollection (mk.cty.refinementNullable 84) (cty.refinementCollection.minLen r) (cty.refinementCollection.maxLen r))))))
+//@   ensures[C05] nul: (=> ((_ is box<*cty.refinementNullable>) w) (= ($at<cty.refinementNullable> (wip_nul w)) (ite dyn (old ($at<cty.refinementNullable> (wip_nul w))) (mk.cty.refinementNullable 84))))
+//
+// Number bounds. The stored bounds are compared with Equals-based operators, whose answer on numbers
+// that are not whole depends on decimal text (num_eq); the clauses that need "equal means numerically
+// equal" carry that as the explicit hypothesis eq_exact. Bounds given by callers are unmarked.
+//@ func (*cty.refinementNumber).assertConsistentBounds
+//@   tags C05
+//@   requires (not (= r 0))
+//@   requires (rn_ok ($at<cty.refinementNumber> r))
+//@   let R ($at<cty.refinementNumber> r)
+//@   let mn (cty.refinementNumber.min R)
+//@   let mx (cty.refinementNumber.max R)
+//@   panics[C05] (and (not (= mn nilval)) (not (= mx nilval)) (ite (= (cty.refinementNumber.minInc R) (cty.refinementNumber.maxInc R)) (not (or (bf_lt (bf_of mn) (bf_of mx)) (num_eq mn mx))) (not (bf_lt (bf_of mn) (bf_of mx)))))
+//
+//@ func (*cty.RefinementBuilder).NumberRangeLowerBound
+//@   tags C05 C20
+//@   requires (not (= b 0))
+//@   requires (and (wf_deep (b_orig b)) (not (is_marked (b_orig b))) (wf_deep min) (not (is_marked min)))
+//@   let o (b_orig b)
+//@   let w (b_wip b)
+//@   let p (wip_num w)
+//@   let R0 (old ($at<cty.refinementNumber> p))
+//@   let R ($at<cty.refinementNumber> p)
+//@   let dyn (= o $G<cty.DynamicVal>)
+//@   let isn ((_ is box<*cty.refinementNumber>) w)
+//@   let mn0 (cty.refinementNumber.min R0)
+//@   let mx0 (cty.refinementNumber.max R0)
+//@   requires (=> isn (and (not (= p 0)) (rn_ok ($at<cty.refinementNumber> p)) (is_number_ty (vty o))))
+//@   panics_may[C05] (not dyn)
+//@   rejects[C05] unsupported: (and (not dyn) (or (= w nil.Any) (not isn)))
+//@   rejects[C05] nullbound: (and (not dyn) isn (is_known min) (is_null min))
+//@   rejects[C05] known: (and (not dyn) isn (is_number_ty (vty min)) (kn min) (is_number_ty (vty o)) (kn o) (bf_lt (bf_of o) (bf_of min)))
+//@   let tighter (and (not dyn) isn (is_number_ty (vty min)) (kn min) (not (= mx0 nilval)) (eq_exact min mx0) (not (= min $G<cty.NegativeInfinity>)) (or (= mn0 nilval) (bf_lt (bf_of mn0) (bf_of min))))
+//@   rejects[C05] empty_above: (and tighter (bf_lt (bf_of mx0) (bf_of min)))
+//@   rejects[C05] empty_equal_mixed: (and tighter (num_eq min mx0) (not (= inclusive (cty.refinementNumber.maxInc R0))))
+//@   rejects[C05] empty_equal_exclusive: (and tighter (num_eq min mx0) (not inclusive) (not (cty.refinementNumber.maxInc R0)))
+//@   writes cty.refinementNumber p
+//@   ensures (= result b)
+//@   ensures[C05] dynamic: (=> dyn (= R R0))
+//@   ensures[C05] unknownbound: (=> (not (is_known min)) (= R R0))
+//@   ensures[C05] rest: (and (= (cty.refinementNumber.max R) mx0) (= (cty.refinementNumber.maxInc R) (cty.refinementNumber.maxInc R0)) (= (rn_null R) (rn_null R0)))
+//@   ensures[C05] narrows: ghost ((ci Int) (cr Real)) :: (=> (and (<= (- 1) ci) (<= ci 1) (not dyn) (is_known min) (or inclusive (not (= min $G<cty.NegativeInfinity>))) (=> (not (= mn0 nilval)) (eq_exact min mn0))) (= (rn_lo_ok R ci cr) (and (rn_lo_ok R0 ci cr) (ite inclusive (x_le (num_i min) (num_r min) ci cr) (x_lt (num_i min) (num_r min) ci cr)))))
+//@   ensures[C05] inv: (=> isn (rn_ok R))
+//
+//@ func (*cty.RefinementBuilder).NumberRangeUpperBound
+//@   tags C05 C20
+//@   requires (not (= b 0))
+//@   requires (and (wf_deep (b_orig b)) (not (is_marked (b_orig b))) (wf_deep max) (not (is_marked max)))
+//@   let o (b_orig b)
+//@   let w (b_wip b)
+//@   let p (wip_num w)
+//@   let R0 (old ($at<cty.refinementNumber> p))
+//@   let R ($at<cty.refinementNumber> p)
+//@   let dyn (= o $G<cty.DynamicVal>)
+//@   let isn ((_ is box<*cty.refinementNumber>) w)
+//@   let mn0 (cty.refinementNumber.min R0)
+//@   let mx0 (cty.refinementNumber.max R0)
+//@   requires (=> isn (and (not (= p 0)) (rn_ok ($at<cty.refinementNumber> p)) (is_number_ty (vty o))))
+//@   panics_may[C05] (not dyn)
+//@   rejects[C05] unsupported: (and (not dyn) (or (= w nil.Any) (not isn)))
+//@   rejects[C05] nullbound: (and (not dyn) isn (is_known max) (is_null max))
+//@   rejects[C05] known: (and (not dyn) isn (is_number_ty (vty max)) (kn max) (is_number_ty (vty o)) (kn o) (bf_lt (bf_of max) (bf_of o)))
+//@   let tighter (and (not dyn) isn (is_number_ty (vty max)) (kn max) (not (= mn0 nilval)) (eq_exact mn0 max) (not (= max $G<cty.PositiveInfinity>)) (or (= mx0 nilval) (bf_lt (bf_of max) (bf_of mx0))))
+//@   rejects[C05] empty_below: (and tighter (bf_lt (bf_of max) (bf_of mn0)))
+//@   rejects[C05] empty_equal_mixed: (and tighter (num_eq mn0 max) (not (= inclusive (cty.refinementNumber.minInc R0))))
+//@   rejects[C05] empty_equal_exclusive: (and tighter (num_eq mn0 max) (not inclusive) (not (cty.refinementNumber.minInc R0)))
+//@   writes cty.refinementNumber p
+//@   ensures (= result b)
+//@   ensures[C05] dynamic: (=> dyn (= R R0))
+//@   ensures[C05] unknownbound: (=> (not (is_known max)) (= R R0))
+//@   ensures[C05] rest: (and (= (cty.refinementNumber.min R) mn0) (= (cty.refinementNumber.minInc R) (cty.refinementNumber.minInc R0)) (= (rn_null R) (rn_null R0)))
+//@   ensures[C05] narrows: ghost ((ci Int) (cr Real)) :: (=> (and (<= (- 1) ci) (<= ci 1) (not dyn) (is_known max) (or inclusive (not (= max $G<cty.PositiveInfinity>))) (=> (not (= mx0 nilval)) (eq_exact max mx0))) (= (rn_hi_ok R ci cr) (and (rn_hi_ok R0 ci cr) (ite inclusive (x_le ci cr (num_i max) (num_r max)) (x_lt ci cr (num_i max) (num_r max))))))
+//@   ensures[C05] inv: (=> isn (rn_ok R))
